@@ -743,6 +743,33 @@ fn main() {
     writeln!(r, "        _ => return None,\n    }})\n}}").unwrap();
     write_if_changed(&verif.join("harness/src/gen_dispatch.rs"), &r);
 
+    // ---------------------------------------------------------------- Rust dispatch for the sequence harness
+    let mut q = String::new();
+    writeln!(q, "// GENERATED by zvt2coq. Do not edit, do not commit.").unwrap();
+    for e in &w.enums {
+        if !e.has_debug {
+            continue;
+        }
+        writeln!(q, "#[allow(dead_code)]\npub fn show_{}(v: &{}) -> String {{\n    match v {{", e.abs.replace("::", "_"), e.abs).unwrap();
+        for (i, (vn, _)) in e.variants.iter().enumerate() {
+            writeln!(q, "        {}::{}(p) => show_variant({}, p),", e.abs, vn, i).unwrap();
+        }
+        writeln!(q, "    }}\n}}\n").unwrap();
+    }
+    writeln!(q, "pub async fn dispatch_seq<S>(name: &str, input: &[u8], pt: &mut zvt::io::PacketTransport<S>, log: &Log) -> Option<()>\nwhere\n    S: tokio::io::AsyncRead + tokio::io::AsyncWrite + Unpin + Send,\n{{\n    use futures::StreamExt;\n    use zvt::sequences::Sequence;\n    match name {{").unwrap();
+    for sq in &w.seqs {
+        if sq.abs.contains("::test::") {
+            continue;
+        }
+        writeln!(q, "        \"{}\" => {{", sq.abs).unwrap();
+        writeln!(q, "            let (inp, _) = <{} as zvt_builder::ZvtSerializer>::zvt_deserialize(input).ok()?;", sq.input).unwrap();
+        writeln!(q, "            let mut st = <{} as Sequence>::into_stream(&inp, pt);", sq.abs).unwrap();
+        writeln!(q, "            while let Some(item) = st.next().await {{\n                match item {{\n                    Ok(v) => push(log, format!(\"Y:{{}}\", show_{}(&v))),\n                    Err(_) => push(log, \"Y:Err\".to_string()),\n                }}\n            }}", sq.output.replace("::", "_")).unwrap();
+        writeln!(q, "        }}").unwrap();
+    }
+    writeln!(q, "        _ => return None,\n    }}\n    Some(())\n}}").unwrap();
+    write_if_changed(&verif.join("harness/src/gen_seq_dispatch.rs"), &q);
+
     for u in &unrec {
         eprintln!("unrecognised: {u}");
     }
